@@ -206,6 +206,47 @@ def inverse_encode_evaluated(repo: Repo):
     return OK, f"{cases} inputs (1-D / 2-D / 3-D, one and two blocks, code words and words with one error) for three codes, one with a dependent parity-check row: (x R mod 2, x H^T mod 2) block by block; invalid length rejected"
 
 
+def extract_message_evaluated(ex: FuncInfo):
+    """An unlisted spelling of BaseBlockCodeEncoder.extract_message evaluated (own arithmetic) with a recording stand-in
+    for `self.inverse_encode`: for code parameters (n, k) from the catalogue and random ones, 1..4 blocks, 1-D and
+    batched words, the result must be exactly the message part the encoder's own inverse returned (b * k symbols per
+    row) and inverse_encode must be called once with the word.  Returns (status, detail) or (None, reason)."""
+    from ..constfold import PyTuple, Unfoldable
+    from ..frag import FragRaise, FragReturn, run_fragment
+
+    cases = 0
+    for n_, k_ in ((7, 4), (15, 11), (31, 21), (31, 17), (22, 15), (23, 13), (26, 15), (63, 45), (8, 4)):
+        for b_ in (1, 2, 3, 4):
+            for batched in (False, True):
+                word = [float((i * 7 + 3) % 2) for i in range(b_ * n_)]
+                msg = [float(100 + i) for i in range(b_ * k_)]
+                x = [list(word), list(word)] if batched else list(word)
+                dec = [list(msg), list(msg)] if batched else list(msg)
+                calls = []
+
+                def inv(*a, _dec=dec, **kw):
+                    calls.append(a)
+                    return PyTuple([_dec, [0.0] * (b_ * (n_ - k_))])
+
+                attrs = {"self.code_length": n_, "self._length": n_, "self.code_dimension": k_, "self._dimension": k_, "self.code_rate": k_ / n_, "self.redundancy": n_ - k_, "self._redundancy": n_ - k_}
+                try:
+                    run_fragment(ex.body, {"codeword": x, "args": [], "kwargs": {}}, attrs, ctors={"self.inverse_encode": inv}, materialise=True, max_steps=50000)
+                    return None, "no value returned"
+                except FragReturn as ret:
+                    got = ret.value
+                except FragRaise:
+                    return VIOLATION, f"(n, k) = ({n_}, {k_}), {b_} block(s): a valid word is rejected"
+                except (Unfoldable, TypeError, IndexError, ValueError, KeyError) as exc:
+                    return None, f"not evaluable ({exc})"
+                if len(calls) != 1:
+                    return None, f"inverse_encode called {len(calls)} times"
+                if got != dec:
+                    shape_ = (len(got), len(got[0])) if isinstance(got, list) and got and isinstance(got[0], list) else (len(got) if isinstance(got, list) else got)
+                    return VIOLATION, f"(n, k) = ({n_}, {k_}), {b_} block(s){', batch of 2' if batched else ''}: extract_message returns a value of shape {shape_} where the encoder's own inverse returned {b_ * k_} message symbols per row (b * k = {b_} * {k_}): the message is not what inverse_encode decoded"
+                cases += 1
+    return OK, f"{cases} (n, k, blocks, layout) cases: the message part of the encoder's own inverse, unchanged"
+
+
 def rule_inverse_form(repo: Repo, rep: Report) -> int:
     ci = repo.cls(LIN, "LinearBlockCodeEncoder")
     inv = repo.method(ci, "inverse_encode")
@@ -236,7 +277,11 @@ def rule_inverse_form(repo: Repo, rep: Report) -> int:
     ex = repo.func(f"{ENC}/base.py", "BaseBlockCodeEncoder.extract_message")
     calls = [c for c in ast.walk(ex.node) if isinstance(c, ast.Call) and attr_chain(c.func) == "self.inverse_encode"]
     ok = len(calls) == 1 and unparse(calls[0].args[0]) == "codeword" and any(unparse(r.value) == "result[0]" for r in returns_of(ex.node))
-    rep.expect(ok, "INVERSE-FORM", ex, "extract_message = inverse_encode(codeword)[0]", "message extraction is the encoder's own inverse", "extract_message no longer returns the message part of inverse_encode")
+    xst_, xd_ = (None, "") if ok else extract_message_evaluated(ex)
+    if xst_ is not None:
+        rep.add("INVERSE-FORM", ex, "extract_message evaluated with a recording inverse_encode over (n, k, blocks)", xst_, xd_, node=ex.node)
+    else:
+        rep.expect(ok, "INVERSE-FORM", ex, "extract_message = inverse_encode(codeword)[0]", "message extraction is the encoder's own inverse", "extract_message no longer returns the message part of inverse_encode" + (f" ({xd_})" if xd_ else ""))
     pw = repo.func(SYS, "SystematicLinearBlockCodeEncoder.project_word")
     bc = [c for c in ast.walk(pw.node) if isinstance(c, ast.Call) and call_name(c) == "apply_blockwise"]
     cl = pw.nested("projection_fn")
